@@ -320,6 +320,9 @@ EvProbe ==
                 When(premise /\ MatchesOf(cfg.shallow, tracked, m, s) /\
                      (SetOf(Line.mact) \cap tracked) # (SetOf(Line.sact) \cap tracked),
                      "ActivityAtQuiescence"),
+                \* the mirror's ticks are what EVERY view of it says: read state by
+                \* state (Tick / Clock) they are the ticks Time() reports
+                When(q /\ Len(Line.mtk) = Len(Line.mt) /\ Line.mtk # Line.mt, "TickViewsAgree"),
                 When(Line.quiescent /\ (Line.blocked > 0 \/ Line.syncopen > 0), "NoForeverBlock")}
          d == When(q /\ mirror # None /\ m.t # mirror.t, "probe.mirror")
      IN /\ viol' = viol \cup v
